@@ -201,7 +201,7 @@ def gen_case(case):
     if case.get("identity_static"):
         cmap = list(range(len(env)))
     else:
-        cmap = gen_map(r, env, single_env_drops())
+        cmap = gen_map(r, env, bool(case.get("single", single_env_drops())))
     return desc, ndim, cmap
 
 
@@ -653,7 +653,7 @@ def make_cases(n_total, ninv=5):
     """ninv: invalid variants tried per map (each costs one grid_to_graph, the dominant cost)"""
     out = []
     for i in range(n_total):
-        c = {"seed": seed(), "idx": i, "ninv": ninv}
+        c = {"seed": seed(), "idx": i, "ninv": ninv, "single": single_env_drops()}
         if i % 4 == 0:
             c["sim"] = True
         if i % 16 == 9:
@@ -683,7 +683,7 @@ def main():
                    "environment, identity), ids shuffled over 0..max, plain ints, dropped cells (-1) with p in {0.1,0.25,0.5} "
                    + ("restricted to ONE environment (VERIF_C16_SINGLE_ENV_DROPS=1)" if single else "over several environments")
                    + ". Every map: coarsegrain_system vs brute-force aggregation; invalid variants (missing index, < -1, wrong length, "
-                   "mixed environments, non-int entry; all in quick, 2 of them per map in thorough) must raise; "
+                   "mixed environments, non-int entry) must raise; "
                    "uncoarsegrain_trajectory of a hand-made coarse trajectory; every 4th case: simulate(euler, cgmap=map) vs the "
                    "spread Euler run of the oracle-built coarse system, and cgmap=identity vs plain Euler (1e-12); every 16th "
                    "case: a periodic grid must be refused. A case is (grid, environments, map); non-trivial when it has >= 2 "
@@ -700,7 +700,9 @@ def main():
     if not single:
         run.require("maps_dropping_several_envs")
     thorough = tier() == "thorough"
-    cases = make_cases(20000, ninv=2) if thorough else make_cases(480, ninv=5)
+    cases = make_cases(20000 if thorough else 480)
+    # pmap deals cases round-robin: shuffle so that the engine cases (every 4th) spread over all workers
+    gen.rng_for(seed(), "C16order").shuffle(cases)
     res = pmap("vf.checks.c16:run_case", cases, cpu_budget=120)
     for c, r_ in zip(cases, res):
         if r_["status"] != "ok":
